@@ -104,6 +104,14 @@ int include_parse(AsmContext *asm_context)
   FILE *oldfp;
   uint8_t write_list_file;
   int ret;
+  static int depth = 0;
+
+  // A file that includes itself would recurse until the stack is gone.
+  if (depth >= 32)
+  {
+    print_error(asm_context, "Includes nested too deep");
+    return -1;
+  }
 
   tokens_get(asm_context, token, TOKENLEN);
 #ifdef DEBUG
@@ -163,7 +171,9 @@ printf("including file %s.\n", token);
     asm_context->tokens.filename = token;
     asm_context->tokens.line = 1;
 
+    depth++;
     ret = asm_context->assemble();
+    depth--;
 
     asm_context->tokens.line = oldline;
   }
